@@ -12,6 +12,7 @@ MAXBLOCK = 17
 
 
 class FindBlock(Contract):
+    abstract_result = True
     """_find_repeatable_block(dat, pos) -> (n, off): a longest earlier match, never overlapping pos."""
     target = MOD + ':_find_repeatable_block'
     mode = 'lia'
@@ -147,6 +148,7 @@ def stream_of(a):
 
 
 class Decompress(Contract):
+    abstract_result = True
     """decompress_code on EVERY code area holding a well-formed stream (not only those picotool produces):
     the first `hl` bytes of the CSpec text, hl = the header length (hl may end before the stream does -- picotool's
     own writer stores the length of the text without the compatibility suffix)."""
@@ -180,6 +182,32 @@ class Decompress(Contract):
         a['codedata'] = SSeq.of([58, 99, 58, 0, hl // 256, hl % 256, 0, 0] + [st.S.get(i) for i in range(st.n)] + [0] * 5, 'list')
         return a
 
+    def examples(self, rnd):
+        t = table()
+        for trial in range(400):
+            items, produced = [], 0
+            for _ in range(rnd.randint(0, 6)):
+                kind = rnd.choice(('lit', 'lit', 'esc', 'blk', 'blk')) if produced else rnd.choice(('lit', 'esc'))
+                if kind == 'lit':
+                    items.append(('lit', t[rnd.randint(1, 59)])); produced += 1
+                elif kind == 'esc':
+                    items.append(('esc', rnd.choice((0x80, 0xff, ord('A'), ord('Z'))))); produced += 1
+                else:
+                    off, ln = rnd.randint(1, min(produced, 40)), rnd.randint(3, 17)
+                    items.append(('blk', off, ln)); produced += ln
+            if trial % 5 == 0:
+                # texts that consist of / end with the compatibility suffix
+                items = [('esc', b) if b not in t[1:] else ('lit', b) for b in (cspec.FUTURE1 if trial % 2 else cspec.FUTURE2)]
+                if trial % 3 == 0:
+                    items = [('lit', ord('x')), ('lit', 10)] + items
+            a = encode_items(items)
+            st = Stream(a)
+            hl = st.tl if rnd.random() < 0.7 else rnd.randint(0, st.tl)
+            a['__hl'] = hl
+            a['codedata'] = SSeq.of([58, 99, 58, 0, hl // 256, hl % 256, 0, 0] + [st.S.get(i) for i in range(st.n)] +
+                                    [0] * rnd.randint(0, 4), 'list')
+            yield a
+
     def requires(self, K, a):
         st = stream_of(a)
         cd = SSeq.of(a['codedata'])
@@ -189,6 +217,9 @@ class Decompress(Contract):
                    *([cd.get(k) == hdr[k] for k in range(8)] +
                      [forall(0, st.n, lambda i: cd.get(8 + i) == st.S.get(i)),
                       forall(0, st.tl, lambda p: NOT(st.T.get(p) == 0))]))     # format limit: code text has no NUL
+
+    def result(self, K, a):
+        return (V.fresh_int('code_length'), V.byte_seq('code'), V.fresh_int('compressed_size'))
 
     def ensures(self, K, a, old, res):
         if not res.returned:
@@ -251,6 +282,7 @@ def rep_for(T):
 
 
 class Compress(Contract):
+    abstract_result = True
     """compress_code(in_p): the output is a WELL-FORMED ':c:' stream (CSpec) denoting exactly the text
     in_p (+ the 0.1.7 compatibility suffix when the text mentions _update60)."""
     target = MOD + ':compress_code'
@@ -269,6 +301,15 @@ class Compress(Contract):
 
     def witness(self, K):
         return {'in_p': SSeq.of(b'function _update60()\n x+=1 x+=1 x+=1 -- \x80\nend')}
+
+    def examples(self, rnd):
+        for trial in range(300):
+            n = rnd.choice((0, 1, 2, 5, 20, 60, 200))
+            alpha = rnd.choice((b'ab', b'ab\n ', b'abcdefgh()=\n\x80'))
+            x = bytes(rnd.choice(alpha) for _ in range(n))
+            if trial % 4 == 0:
+                x += b'_update60' + rnd.choice((b'', b'\n', b' ', b'x'))
+            yield {'in_p': SSeq.of(x)}
 
     def has60(self, in_p):
         """b'_update60' in in_p, as an uninterpreted predicate of the text (it implies len >= 9)."""
